@@ -324,7 +324,7 @@ func GenDialogue(g *vh.Gen, c Cfg, pool []string, o Opts) []byte {
 		}
 		line(cmdCase(g, "DATA"))
 		bodyLines = genBody(g, o, from, tos)
-		if o.SmallLimit && g.Chance(0.6) {
+		if o.SmallLimit && g.Chance(0.6) && (ntx <= 8 || c.MaxBytes <= 1000) { // long sessions stay small: many big bodies are megabytes
 			// pad the body to straddle the limit
 			target := c.MaxBytes + g.Pick2(-2, -1, 0, 1, 2, c.MaxBytes, 9*c.MaxBytes)
 			cur := 0
